@@ -139,7 +139,7 @@ class Automation:
         elif self.boundaries == "clip":
             return max(self.range[0], min(self.range[1], self.current_value))
         elif self.boundaries == "wrap":
-            return self.range[0] + (self.current_value % (self.range[1] - self.range[0]))
+            return self.range[0] + ((self.current_value - self.range[0]) % (self.range[1] - self.range[0]))
         elif self.boundaries == "fold":
             raise ValueError("Not yet implemented: fold")
 
